@@ -8,6 +8,7 @@ import (
 	"fmt"
 	"math/rand"
 	"os"
+	"strings"
 	"sync"
 
 	kanzi "github.com/flanglet/kanzi-go/v2"
@@ -28,6 +29,27 @@ type entCase struct {
 	// constructor parameters (chunk size, log range) when the codec is built by its own constructor instead of the factory:
 	// HUFFMAN [chunk], RANGE [chunk, logRange], ANS0/ANS1 [chunk, logRange]
 	Args []uint `json:"args,omitempty"`
+	// Split > 1: the data is a sequence of Split blocks written by successive Write calls on ONE encoder and read back by the same
+	// sequence of Read calls on one decoder (what ROLZ does with its literal / length / index streams)
+	Split int `json:"split,omitempty"`
+}
+
+// pieces cuts n bytes into the blocks of a case
+func (c entCase) pieces(n int) [][2]int {
+	if c.Split <= 1 || n < c.Split {
+		return [][2]int{{0, n}}
+	}
+	var out [][2]int
+	cut := 0
+	for i := 1; i <= c.Split; i++ {
+		end := n * i / c.Split
+		if i < c.Split && i%2 == 1 {
+			end = max(cut, end-n/(3*c.Split)) // unequal blocks
+		}
+		out = append(out, [2]int{cut, end})
+		cut = end
+	}
+	return out
 }
 
 // directCodec builds the codec of a case through its public constructor with explicit parameters
@@ -201,6 +223,9 @@ func runEntropy(c entCase) tr.Ev {
 	if len(c.Args) > 0 {
 		ev["args"] = fmt.Sprint(c.Args)
 	}
+	if c.Split > 1 {
+		ev["args"] = strings.TrimSpace(fmt.Sprint(c.Args, " blocks=", c.Split))
+	}
 	data := entData(c)
 	et, err := entropy.GetType(c.Codec)
 	if err != nil {
@@ -237,10 +262,12 @@ func runEntropy(c entCase) tr.Ev {
 			ev["msg"] = err.Error()
 			return
 		}
-		if _, err := ee.Write(data); err != nil {
-			ev["enc"] = "error"
-			ev["msg"] = err.Error()
-			return
+		for _, pc := range c.pieces(len(data)) {
+			if _, err := ee.Write(data[pc[0]:pc[1]]); err != nil {
+				ev["enc"] = "error"
+				ev["msg"] = err.Error()
+				return
+			}
 		}
 		ee.Dispose()
 		encBits = obs.Written() - start
@@ -278,10 +305,12 @@ func runEntropy(c entCase) tr.Ev {
 			ev["msg"] = err.Error()
 			return
 		}
-		if _, err := ed.Read(out); err != nil {
-			ev["dec"] = "error"
-			ev["msg"] = err.Error()
-			return
+		for _, pc := range c.pieces(len(data)) {
+			if _, err := ed.Read(out[pc[0]:pc[1]]); err != nil {
+				ev["dec"] = "error"
+				ev["msg"] = err.Error()
+				return
+			}
 		}
 		ed.Dispose()
 		ev["decBits"] = int(ibs.Read() - start)
@@ -302,6 +331,7 @@ func cmdEntropy(args []string) int {
 	thorough := fs.Bool("thorough", false, "thorough")
 	par := fs.Int("par", 8, "parallelism")
 	one := fs.String("case", "", "run one case (JSON)")
+	only := fs.String("codecs", "", "comma separated list: keep only the cases of these codecs")
 	fs.Parse(args)
 	if *one != "" {
 		var c entCase
@@ -412,6 +442,36 @@ func cmdEntropy(args []string) int {
 			}
 		}
 	}
+	// several blocks through one encoder / decoder object (state left over from the previous block)
+	{
+		k := 0
+		sfams := []string{"text", "skew", "random", "alpha:3", "rare:100:2", "dna", "runs"}
+		// only the codecs with a static model per chunk: the bit-wise coders keep one arithmetic-coder state for the life of the object
+		// (flushed by Dispose), so one object carries one block by design and nothing in the tree uses them otherwise
+		for _, codec := range []string{"NONE", "HUFFMAN", "ANS0", "ANS1", "RANGE"} {
+			for _, split := range []int{2, 3, 5} {
+				for _, l := range []int{40, 3000, 50000} {
+					if slowEntropy(codec) && l > 20000 {
+						l = 20000
+					}
+					cases = append(cases, entCase{ID: id, Codec: codec, Len: l, Fam: sfams[k%len(sfams)], Seed: *seed*131 + int64(id), Lead: []int{0, 3, 8}[k%3], Split: split})
+					id++
+					k++
+				}
+			}
+		}
+		for _, codec := range []string{"ANS0", "ANS1", "RANGE", "HUFFMAN"} {
+			for _, split := range []int{2, 4} {
+				args := []uint{2048, 10}
+				if codec == "HUFFMAN" {
+					args = []uint{2048}
+				}
+				cases = append(cases, entCase{ID: id, Codec: codec, Len: 9000, Fam: sfams[k%len(sfams)], Seed: *seed*131 + int64(id), Split: split, Args: args})
+				id++
+				k++
+			}
+		}
+	}
 	// anti-model blocks for the bit-wise coders
 	for _, codec := range []string{"CM", "TPAQ", "TPAQX"} {
 		for li, l := range []int{33, 65, 100, 200, 500, 1000, 4000, 20000} {
@@ -473,6 +533,19 @@ func cmdEntropy(args []string) int {
 			fam = fmt.Sprintf("piecewise:%d", pick(rnd, []int{256, 1024, 4096, 8192}))
 		}
 		add(codec, l, fam, rnd.Intn(64))
+	}
+	if *only != "" {
+		keep := map[string]bool{}
+		for _, c := range strings.Split(*only, ",") {
+			keep[c] = true
+		}
+		var kept []entCase
+		for _, c := range cases {
+			if keep[c.Codec] && c.Len <= 1<<20 {
+				kept = append(kept, c)
+			}
+		}
+		cases = kept
 	}
 	evs := make([]tr.Ev, len(cases))
 	var wg sync.WaitGroup
